@@ -32,17 +32,19 @@ Definition scope_code (x : option str) : N :=
               else if str_eqb v (s "notified") then 3 else if str_eqb v (s "forever") then 4 else 0
   end.
 
-(* [fx] = the repaired reading of allow-none on an inout parameter (nullable, as the scanner means it) *)
+(* [fx] = the repaired reader: allow-none, the deprecated spelling of nullable/optional, is only
+   consulted when the GIR states neither of them (the writer only ever writes "1" for those, so
+   presence and value coincide on scanner output) *)
 Definition read_param (fx : bool) (o : obs1) : rflags :=
   let is_out := match b_direction o with Some d => str_eqb d (s "out") | None => false end in
   let is_inout := match b_direction o with Some d => str_eqb d (s "inout") | None => false end in
   let p_in := negb is_out in
   let p_out := is_out || is_inout in
-  let allow_none_means_optional := if fx then p_out && negb p_in else p_out in
+  let allow_none := b_allow_none o && (if fx then negb (b_nullable o || b_optional o) else true) in
   {| rf_in := p_in; rf_out := p_out;
      rf_caller_allocates := is_out && match b_caller_allocates o with Some b => b | None => false end;
-     rf_nullable := b_nullable o || (b_allow_none o && negb allow_none_means_optional);
-     rf_optional := b_optional o || (b_allow_none o && allow_none_means_optional);
+     rf_nullable := b_nullable o || (allow_none && negb p_out);
+     rf_optional := b_optional o || (allow_none && p_out);
      rf_skip := b_skip o; rf_transfer := transfer_code (b_transfer o); rf_scope := scope_code (b_scope o);
      rf_closure := b_closure o; rf_destroy := b_destroy o |}.
 
